@@ -13,12 +13,23 @@ def jobs(tier):
         for qn in (0, 1, 2, 3):
             if op == 2 and qn == 0: continue
             tiers = ("quick", "thorough") if qn <= 2 else ("thorough",)
-            J.append(Job(name=f"names.{nm}.Q{qn}", group="C14.names", harness="harness/C14_services.c", defines={"QN": qn, "OP": op}, real=REAL, env=ENV,
-                         checks="assert", unwind=8, unwindset=["vf_err_is.0:66"], timeout=1200, tiers=tiers,
-                         encodes=["bus_registry_acquire_service", "bus_registry_release_service", "bus_service_remove_owner", "bus_service_add_owner", "bus_service_swap_owner",
-                                  "cancel_ownership", "restore_ownership", "free_ownership_cancel_data", "free_ownership_restore_data", "bus_registry_ensure"],
-                         stubs=["allocator fails at call k (mempool, list pool via dbus-list, dbus_new, hash insert/preallocate, hook registration, owned-service link)",
-                                "driver signal send j fails with NoMemory", "cancel = hooks newest-first (as bus_transaction_cancel_and_free)"],
-                         bounds=f"queue length {qn}; failing allocation index 0..12 or failing signal index 0..4 (single fault); flags 32-bit",
-                         shape=f"{nm} under OOM, queue length {qn}", cost=2 + qn))
+            faults = [("a%d" % k, k, 0) for k in range(1, 11 if op == 0 else 7)] + [("s%d" % j, 0, j) for j in range(1, 4)]
+            for tag, koom, ksig in faults:
+                if op == 0:   # RequestName under a fault: cost grows steeply with queue length and fault index (measured: Q1.a4 121 s, Q2.a5 331 s, Q2.a6 > 900 s)
+                    tiers = ("quick", "thorough") if ((qn == 0 and koom <= 7 and ksig <= 2) or (qn == 1 and koom in (1, 2, 3, 4))) else ("thorough",)
+                J.append(Job(name=f"names.{nm}.Q{qn}.{tag}", group="C14.names", harness="harness/C14_services.c", defines={"QN": qn, "OP": op, "KOOM": koom, "KSIG": ksig},
+                             real=REAL, env=ENV, checks="assert", unwind=8, unwindset=["vf_err_is.0:66"], timeout=900 if "quick" in tiers else 5400, tiers=tiers,
+                             encodes=["bus_registry_acquire_service", "bus_registry_release_service", "bus_service_remove_owner", "bus_service_add_owner", "bus_service_swap_owner",
+                                      "cancel_ownership", "restore_ownership", "free_ownership_cancel_data", "free_ownership_restore_data", "bus_registry_ensure"],
+                             stubs=["allocator fails at call k (mempool, list pool via dbus-list, dbus_new, hash insert/preallocate, hook registration, owned-service link)",
+                                    "driver signal send j fails with NoMemory", "cancel = hooks newest-first (as bus_transaction_cancel_and_free)"],
+                             bounds=f"queue length {qn}; the {('allocation #%d' % koom) if koom else ('signal send #%d' % ksig)} of the operation fails; flags 32-bit, queue contents symbolic",
+                             shape=f"{nm} under OOM ({tag}), queue length {qn}", cost=2 + qn))
+    import importlib.util, os
+    sp = importlib.util.spec_from_file_location("vfjobs_x_C11", os.path.join(os.path.dirname(__file__), "C11.py")); m = importlib.util.module_from_spec(sp); m.Job = Job; sp.loader.exec_module(m)
+    lj = m.loader_job(1, "C14.loader", skip_findings=False); lj.name = "loader.oom.F1"; J.append(lj)
+    J.append(Job(name="remove_match.order", group="C14.remove_match", harness="harness/C13_addmatch.c", defines={"OP": 1}, real=["dbus/dbus-string.c"],
+                 env=["assert_stubs.c", "mem.c", "msg_model.c"], checks="assert", unwind=8, unwindset=["strcmp.0:48", "strlen.0:24"], timeout=300,
+                 encodes=["bus_driver_handle_remove_match", "bus_driver_send_ack_reply"], stubs=["parser / matchmaker / reply construction = outcome stubs with ghost counters"],
+                 bounds="every outcome of parsing, reply construction, reply staging and rule lookup", shape="RemoveMatch all-or-nothing"))
     return J
